@@ -1,0 +1,99 @@
+//go:build verif
+
+package jd
+
+// Property-level stand-ins (build tag verif): thin wrappers around the public API whose contracts
+// state the listed properties directly. Their contracts are marked "bounded": the verifier does
+// not attempt to prove them; the harness evaluates them on the real code over finite universes.
+
+// verifDiff is a.Diff(b, options...).
+func verifDiff(a, b JsonNode, options []Option) Diff {
+	return a.Diff(b, options...)
+}
+
+// verifMergeOK: MERGE is only claimed for null-free documents.
+func verifNullFree(n JsonNode) bool {
+	switch v := n.(type) {
+	case jsonNull:
+		return false
+	case jsonArray:
+		for _, e := range v {
+			if !verifNullFree(e) {
+				return false
+			}
+		}
+	case jsonObject:
+		for _, e := range v {
+			if !verifNullFree(e) {
+				return false
+			}
+		}
+	}
+	return true
+}
+
+// verifSetKeysOK: under SetKeys every object member of every array carries all the keys,
+// with scalar key values, and identities are unique within an array (the documented use).
+func verifSetKeysOK(n JsonNode, options []Option) bool {
+	keys, ok := getOption[setKeysOption](options)
+	if !ok {
+		return true
+	}
+	switch v := n.(type) {
+	case jsonArray:
+		for _, e := range v {
+			if o, isObj := e.(jsonObject); isObj {
+				for _, k := range *keys {
+					kv, has := o[k]
+					if !has {
+						return false
+					}
+					switch kv.(type) {
+					case jsonArray, jsonObject:
+						return false
+					}
+				}
+			}
+			if !verifSetKeysOK(e, options) {
+				return false
+			}
+		}
+	case jsonObject:
+		for _, e := range v {
+			if !verifSetKeysOK(e, options) {
+				return false
+			}
+		}
+	}
+	return true
+}
+
+// verifDomain: the (a, b, options) triples for which the round-trip property is claimed.
+func verifDomain(a, b JsonNode, options []Option) bool {
+	if checkOption[mergeOption](options) && (!verifNullFree(a) || !verifNullFree(b)) {
+		return false
+	}
+	return verifSetKeysOK(a, options) && verifSetKeysOK(b, options)
+}
+
+// verifPatchGives: applying d to a copy of a succeeds and yields a document equal to b under options.
+func verifPatchGives(a JsonNode, d Diff, b JsonNode, options []Option) bool {
+	r, err := verifCloneNode(a).Patch(verifCloneDiff(d))
+	if err != nil {
+		return false
+	}
+	return r.Equals(b, options...)
+}
+
+// verifEqualOptions: the options that select how Equals reads arrays and numbers.
+func verifEqualOptions(options []Option) []Option {
+	var out []Option
+	for _, o := range options {
+		switch o.(type) {
+		case mergeOption:
+		default:
+			out = append(out, o)
+		}
+	}
+	return out
+}
